@@ -443,6 +443,25 @@ def plan_C13(tier, seed):
     sh = [Shard("grp_%02d" % i, drv_finders.gen_group,
                 dict(items=g, seed=seed, eras=eras, per_era=per_era, edge=True, nev=nev), *T)
           for i, g in enumerate(groups) if g]
+    # whole windows in which EVERY event is asked for and judged (thorough: the whole of -2000..4000, every event of every
+    # finder; Mercury's 19,000 synodic / 25,000 orbital events: all asked for, every fourth judged)
+    J0, J1 = drv_finders.J_M2000, drv_finders.J_4000
+    rng = random.Random("c13all/%s" % seed)
+    for (pl, fn, v) in fl:
+        P = drv_finders.SYN[pl] if fn in drv_finders.SYNF else drv_finders.ORB[pl]
+        cost = 0.09 if fn in drv_finders.SYNF else 0.02
+        if tier == "quick":
+            if rng.random() < 0.75:
+                continue
+            a = J0 + rng.random() * (J1 - J0 - 12 * P)
+            wins, stride = [(a, a + 10 * P)], 1
+        else:
+            stride = 4 if pl == "Mercury" else 1
+            nchunk = max(1, int((J1 - J0) / P * cost / stride / 100.0 + 0.5))
+            wins = [(J0 + (J1 - J0) * i / nchunk, J0 + (J1 - J0) * (i + 1) / nchunk) for i in range(nchunk)]
+        for wi, (a, b) in enumerate(wins):
+            sh.append(Shard("all_%s_%s_%d_%02d" % (pl[:3], fn, v, wi), drv_finders.gen_all,
+                            dict(planet=pl, fn=fn, variant=v, seed=seed, window=[a, b], stride=stride), *T))
     return dict(
         mc=[MC("MC_Finder", "MC_Finder.cfg", workers=4, heap="2g", note="abstract nearest-event finder: protocol laws hold for every query sequence on a grid")],
         shards=sh, level="model_checking", exhaustive=False, nontrivial=_nt_c13,
@@ -452,7 +471,10 @@ def plan_C13(tier, seed):
              "backwards, consecutive distinct results one period apart within the period's natural variation, result within one "
              "period of the query, ValueError outside -2000..4000, totality inside. Event reality: for sampled events the "
              "library's own VSOP87 positions at r, r+-tol, r+-2tol (tol = 1 d Mercury-Mars, 2 d beyond) must show the defining "
-             "sign change / extremum inside the stencil, the reported elongation within 0.1 deg, inferior vs superior, east vs west. "
+             "sign change / extremum inside the stencil, the reported elongation within 0.1 deg, inferior vs superior, east vs west; "
+             "sharp form for extremum kinds: the slope (short central difference) changes sign between r - tol and r + tol. "
+             "Whole windows in which EVERY event is asked for at half-period steps and judged: quick 10 periods for a quarter "
+             "of the variants, thorough all of -2000..4000 for every variant (Mercury: every fourth event judged). "
              "Distinct case = distinct returned event (or refused query year) per finder variant.",
         assumptions=["period constants and admissible gap ratios are constants of Finders.tla (Meeus' mean periods; ratio bounds = twice the "
                      "variation observed on the pinned tree, at least 1 %): a skipped event doubles a gap",
@@ -482,6 +504,15 @@ def plan_C15(tier, seed):
         fine = list(range(-1990, 3990, 330))
         nev = 600
     sh = [Shard("pos_%02d" % i, drv_moon.gen_pos, dict(j0=j, ndays=nd), *T) for i, j in enumerate(starts)]
+    J0 = 990557.5
+    if tier == "quick":
+        a = J0 + 60 + rng.randrange(0, 200) * 365.25        # a 3-year window of the 20th/19th century BC, one anywhere
+        b = J0 + rng.randrange(0, 5990) * 365.25
+        wins = [(a, a + 3 * 365.25), (b, b + 3 * 365.25)]
+    else:
+        wins = [(J0 + 60 + i * 50 * 365.25, J0 + 60 + (i + 1) * 50 * 365.25) for i in range(12)]       # all of -2000..-1400
+        wins += [(J0 + (700 + 265 * i + rng.randrange(0, 250)) * 365.25,) * 2 for i in range(20)]
+        wins = [(w[0], w[1] + (0 if w[1] > w[0] else 15 * 365.25)) for w in wins]                      # 15-year windows later on
     for fn, tgs in drv_moon.TARGETS.items():
         for t in tgs:
             items = [("queries", dict(fn=fn, target=t, years=daily + [rng.randrange(-1999, 3999)], step_mode="daily", seed=seed)),
@@ -490,6 +521,10 @@ def plan_C15(tier, seed):
                                       step_mode="yearend", seed=seed)),
                      ("events", dict(fn=fn, target=t, seed=seed, n=nev))]
             sh.append(Shard("fnd_%s_%s" % (fn.replace("moon_", ""), t), drv_moon.gen_group, dict(items=items, seed=seed), *T))
+            # EVERY event of whole windows (the margins of the series are smallest in the earliest centuries)
+            for wi, (a, b) in enumerate(wins):
+                sh.append(Shard("all_%s_%s_%02d" % (fn.replace("moon_", ""), t, wi), drv_moon.gen_group,
+                                dict(items=[("events", dict(fn=fn, target=t, seed=seed, n=0, window=(a, b)))], seed=seed), *T))
     return dict(
         mc=[MC("MC_Finder", "MC_Finder.cfg", workers=4, heap="2g", note="abstract nearest-event finder protocol")],
         shards=sh, level="model_checking", exhaustive=False, nontrivial=_nt_c15,
@@ -500,7 +535,9 @@ def plan_C15(tier, seed):
              "calendar day of the sample years in both calendars incl. 29 February of Julian century years, 1/20-period steps over "
              "3-year windows; protocol (never backwards, one month apart, within 1.6 months, totality) and event reality from the "
              "library's own positions (phase longitude 0.06 deg, distance/declination extremal inside +-0.25 d, latitude 0.02 deg, "
-             "reported declination 0.15 deg). Distinct case = distinct day sample / returned event per target.",
+             "reported declination 0.15 deg; sharp form: the slope of distance / declination changes sign between r - 0.25 d and "
+             "r + 0.25 d). Whole windows in which EVERY event is judged: quick two 3-year windows (one in -2000..-1800), thorough "
+             "all of -2000..-1400 and twenty 15-year windows later. Distinct case = distinct day sample / returned event per target.",
         assumptions=["mean node / perigee rates -0.0529539 and +0.1114041 deg/day, tolerance 1e-3 deg/day",
                      "gap ratio bounds in Finders.tla from the natural variation of the months (doubled)"])
 
